@@ -102,3 +102,30 @@ def is_atom(kind, *contains):
 
 def cmp_rel(a):
     return a[3] if a[0] == 'cmp' else None
+
+
+_ope = {}
+
+
+def op_pe(facts, fn):
+    """PathEnum driven by the operator interpreter (input protocol, summaries, constructor state)"""
+    from .opsum import automaton
+    k = (id(facts), fn.path)
+    if k not in _ope:
+        a = automaton(facts, fn)
+        from .opsum import OpInterp, se_summaries
+        it = OpInterp(facts, fn, se_summaries(facts), protocol=False)
+        p = PathEnum(facts, fn, interp=it)
+        p.init = {k_: v for k_, v in a.init.items() if not k_.startswith('["$')}
+        _ope[k] = p
+    return _ope[k]
+
+
+def op_cond_of_block(facts, fn, b):
+    p = op_pe(facts, fn)
+    d = p.paths(lambda bb, st: bb == b, init=p.init)
+    return simplify([a for a, _ in d])
+
+
+def input_is(v):
+    return lambda a: a[0] == 'is' and a[1] == '<input>' and a[2] == v
